@@ -162,6 +162,7 @@ type Sched struct {
 	sleepSites map[int]bool
 	preempts   int // parks that happened inside a harness operation
 	inOp       int
+	rawRun     int
 	siteHits   map[int]int
 	OnLock     func(t *Task)
 	OnIdle     func() // optional: called by root when nothing is runnable (before tick)
@@ -339,8 +340,14 @@ func (s *Sched) yield(site int) {
 		s.siteHits[site]++
 	}
 	if s.disabled[siteClass(site)] {
-		return
+		// a task spinning only through disabled sites must still be preemptible:
+		// after a long uninterrupted stretch the site counts as enabled
+		s.rawRun++
+		if s.rawRun < 3000 {
+			return
+		}
 	}
+	s.rawRun = 0
 	s.steps++
 	t.steps++
 	if s.plan.StallSite == site && s.plan.StallLen > 0 {
@@ -584,7 +591,7 @@ func (s *Sched) Run() Verdict {
 			continue
 		}
 		idle = 0
-		if s.steps > s.plan.MaxSteps {
+		if s.steps > s.plan.MaxSteps || s.picks > s.plan.MaxSteps {
 			return VBudget
 		}
 		if sleepers && s.plan.TickChance > 0 && s.plan.Strategy != "follow" && s.rng.Float() < s.plan.TickChance {
@@ -612,6 +619,7 @@ func (s *Sched) Run() Verdict {
 		t.state = tsRunning
 		s.cur = t
 		s.segSteps = 0
+		s.rawRun = 0
 		t.ch <- struct{}{}
 	}
 }
